@@ -4,7 +4,7 @@
 From Coq Require Import Permutation Sorted.
 From RP2V Require Import Base.Prelude Base.Time Base.Dec Base.Sorting Model.Types Model.Generated Model.Txn
   Model.Matcher Model.MatchSpec Model.Pipeline Model.Parser Model.Computed Model.MainRun
-  Proofs.SortingProofs Proofs.PipelineWf Proofs.BalanceProofs Proofs.YearlyProofs Proofs.C16Proofs.
+  Proofs.SortingProofs Proofs.PipelineWf Proofs.BalanceProofs Proofs.YearlyProofs Proofs.RunLemmas.
 Open Scope Z_scope.
 
 (** * 1. permuting the rows of the tables *)
